@@ -156,6 +156,7 @@ type tr struct {
 	fields   map[string]string // Go field name → Lean pattern variable (struct methods)
 	subst    map[string]string // printed Go expression → Lean term (loop element, unwrapped option)
 	inAssign bool              // inside Assignment.string (recursive calls go to stringList)
+	inNest   bool              // inside nestStructToString (recursive calls go to assignmentToStringList)
 	recList  string            // the list whose rendering is passed in as `rec__` (NestStruct)
 }
 
@@ -411,6 +412,20 @@ func (t *tr) rangeStmt(r *ast.RangeStmt) string {
 		}
 		key = exprKey(r.X) + "[" + keyIdent.Name + "]"
 	}
+	// the recursive loop of nestStructToString: AssignmentToString(f, content) over the contents
+	if t.inNest && len(r.Body.List) == 1 {
+		if arg, ok := isWriteString(r.Body.List[0]); ok {
+			if c, ok := arg.(*ast.CallExpr); ok && len(c.Args) == 2 {
+				if id, ok := c.Fun.(*ast.Ident); ok && id.Name == "AssignmentToString" && exprKey(c.Args[1]) == key {
+					if t.recList != "" && t.recList != list {
+						failf(r, "two different recursive loops")
+					}
+					t.recList = list
+					return "rec__"
+				}
+			}
+		}
+	}
 	// the recursive case of NestStruct.String
 	if t.inAssign && len(r.Body.List) == 1 {
 		if arg, ok := isWriteString(r.Body.List[0]); ok {
@@ -598,11 +613,76 @@ func genRender(repo string) string {
 	sb.WriteString(strings.Join(errCases, "\n"))
 	sb.WriteString("\n\n")
 
-	// AssignmentToString(f, a)
+	// AssignmentToString(f, a): optionally starts with the dispatch
+	//     if nest, ok := a.(model.NestStruct); ok { return nestStructToString(f, nest) }
 	{
 		fd := findFunc(fga, "", "AssignmentToString")
+		body := fd.Body.List
+		nestCase := ""
+		if len(body) > 0 {
+			if is, ok := body[0].(*ast.IfStmt); ok && is.Init != nil {
+				as, ok1 := is.Init.(*ast.AssignStmt)
+				if !ok1 || len(as.Rhs) != 1 {
+					failf(is, "unsupported if-init")
+				}
+				ta, ok2 := as.Rhs[0].(*ast.TypeAssertExpr)
+				if !ok2 || exprKey(ta.Type) != "model.NestStruct" || exprKey(ta.X) != "a" || exprKey(is.Cond) != "ok" {
+					failf(is, "unsupported type assertion dispatch")
+				}
+				ret, ok3 := is.Body.List[0].(*ast.ReturnStmt)
+				if !ok3 || len(is.Body.List) != 1 || len(ret.Results) != 1 {
+					failf(is, "unsupported dispatch body")
+				}
+				call, ok4 := ret.Results[0].(*ast.CallExpr)
+				if !ok4 || exprKey(call.Fun) != "nestStructToString" || len(call.Args) != 2 {
+					failf(is, "dispatch must return nestStructToString(f, nest)")
+				}
+				// translate nestStructToString with the receiver-like variable bound to pattern variables
+				nfd := findFunc(fga, "", "nestStructToString")
+				if len(nfd.Type.Params.List) != 2 || len(nfd.Type.Params.List[1].Names) != 1 {
+					failf(nfd, "unexpected parameters of nestStructToString")
+				}
+				sv := nfd.Type.Params.List[1].Names[0].Name
+				fields := structFields(fa, "NestStruct")
+				fmap := map[string]string{}
+				var pats []string
+				for _, f := range fields {
+					n := strings.Fields(f)[0]
+					fmap[n] = lowerName(n) + "_"
+					pats = append(pats, lowerName(n)+"_")
+				}
+				tn := &tr{recv: sv, fields: fmap, subst: map[string]string{}, inNest: true}
+				nbody := tn.builderBody(nfd)
+				if tn.recList == "" {
+					failf(nfd, "nestStructToString does not render its contents recursively")
+				}
+				fmt.Fprintf(&sb, "def nestStructToString.body (f : Function) (%s : String) (%s : String) (%s : List Assignment) (rec__ : String) : String :=\n  %s\n\n",
+					pats[0], pats[1], pats[2], nbody)
+				nestCase = fmt.Sprintf("  | .nestStruct %s => nestStructToString.body f %s (assignmentToStringList f %s)\n", strings.Join(pats, " "), strings.Join(pats, " "), tn.recList)
+				body = body[1:]
+			}
+		}
 		t := &tr{subst: map[string]string{}}
-		fmt.Fprintf(&sb, "def assignmentToString (%s) : String :=\n  %s\n\n", params(fd, map[string]string{"*model.Function": "Function", "model.Assignment": "Assignment"}), t.builderBody(fd))
+		rest := &ast.FuncDecl{Name: fd.Name, Type: fd.Type, Body: &ast.BlockStmt{List: body}}
+		plain := t.builderBody(rest)
+		fmt.Fprintf(&sb, "def assignmentToString.plain (%s) : String :=\n  %s\n\n", params(fd, map[string]string{"*model.Function": "Function", "model.Assignment": "Assignment"}), plain)
+		if nestCase == "" {
+			sb.WriteString("def assignmentToString (f : Function) (a : Assignment) : String := assignmentToString.plain f a\n\n")
+		} else {
+			otherCases := ""
+			for _, st := range assignmentStructs {
+				if st == "NestStruct" {
+					continue
+				}
+				var ps []string
+				for range structFields(fa, st) {
+					ps = append(ps, fmt.Sprintf("x%d", len(ps)))
+				}
+				otherCases += fmt.Sprintf("  | .%s %s => assignmentToString.plain f (.%s %s)\n", lowerName(st), strings.Join(ps, " "), lowerName(st), strings.Join(ps, " "))
+			}
+			sb.WriteString("mutual\ndef assignmentToString (f : Function) : Assignment → String\n" + nestCase + otherCases +
+				"def assignmentToStringList (f : Function) : List Assignment → String\n  | [] => \"\"\n  | c :: cs => assignmentToString f c ++ assignmentToStringList f cs\nend\n\n")
+		}
 	}
 	// ManipulatorToString(m, src, dst, args)
 	{
